@@ -110,22 +110,33 @@ class Check:
         if v.status == "unsat":
             self.discharged += 1
             return True
+        # sat (candidate counterexample) or unknown: try the model, then the run's witness point
+        cands = []
+        if replay is not None:
+            for m in ([v.model] if v.status == "sat" else []) + [None]:
+                try:
+                    r = replay(m)
+                except Exception as e:  # noqa
+                    r = None
+                    self.notes.append(f"replay builder failed for {label}: {e!r}")
+                if r is not None:
+                    cands.append(r)
+        for kind, args in cands:
+            fn = self.replayers.get(kind)
+            try:
+                good, _ = fn(args) if fn else (False, "")
+            except Exception:  # noqa
+                good = False
+            if good:
+                self.report(key or label, what or label, kind, args)
+                return False
         if v.status == "unknown":
             self.inconclusive.append(f"{label}: solver returned unknown after {v.secs:.1f}s")
-            return False
-        # sat: candidate counterexample
-        rep = None
-        if replay is not None:
-            try:
-                rep = replay(v.model)
-            except Exception as e:  # noqa
-                rep = None
-                self.notes.append(f"replay builder failed for {label}: {e!r}")
-        if rep is None:
+        elif not cands:
             self.inconclusive.append(f"{label}: candidate counterexample could not be concretised")
-            return False
-        kind, args = rep
-        self.report(key or label, what or label, kind, args)
+        else:
+            self.validated += len(cands)
+            self.inconclusive.append(f"{label}: candidate counterexample did not reproduce on the real code")
         return False
 
     def expect_sat(self, label, conds, what="reachability"):
@@ -258,12 +269,53 @@ def _eq_term(impl, ref):
     return S.lift(impl).t == S.lift(ref).t
 
 
+def _witness_differs(impl, ref):
+    from .real import S
+
+    if isinstance(impl, bool) or isinstance(ref, bool):
+        return bool(impl) != bool(ref)
+    try:
+        a = S.lift(impl).w
+        refs = ref if isinstance(ref, tuple) else (ref,)
+        bs = [S.lift(r).w for r in refs]
+    except Exception:  # noqa
+        return False
+    return all(abs(a - b) > abs(b) * 1e-9 + 1e-12 for b in bs)
+
+
 def prove_pairs(chk, cname, pairs, facts, replay_for, key_for, sample=None):
-    """pairs: [(label, implementation value, oracle value)].  One solver query for the conjunction;
-    on failure one per pair (localisation + replay).  Returns True iff all proved."""
-    eqs = [(lab, _eq_term(impl, ref)) for lab, impl, ref in pairs]
+    """pairs: [(label, implementation value, oracle value)].
+
+    Pairs whose values already differ at the run's witness point are replayed on floats right away (a
+    reproducing concrete counterexample needs no solver).  Everything else: one solver query for the
+    conjunction; on failure one per pair (localisation, model -> replay).  True iff all proved."""
+    ok = True
+    rest = []
+    for lab, impl, ref in pairs:
+        if _witness_differs(impl, ref):
+            rep = None
+            try:
+                rep = replay_for(lab)(None)
+            except Exception:  # noqa
+                rep = None
+            if rep is not None:
+                n0 = len(chk.violations) + len(chk.known_hits)
+                fn = chk.replayers.get(rep[0])
+                try:
+                    good, detail = fn(rep[1])
+                except Exception as e:  # noqa
+                    good, detail = False, repr(e)
+                if good:
+                    chk.obligations += 1
+                    chk.evaluations += 1
+                    chk.nontrivial.add(cname)
+                    chk.report(key_for(lab), f"{cname}: {lab} violates the relation", rep[0], rep[1])
+                    ok = False
+                    continue
+        rest.append((lab, impl, ref))
+    eqs = [(lab, _eq_term(impl, ref)) for lab, impl, ref in rest]
     if not eqs:
-        return True
+        return ok
     conj = z3.And(*[e for _, e in eqs])
     v = chk.prover.prove(conj, facts, cname)
     chk.evaluations += 1
@@ -273,12 +325,16 @@ def prove_pairs(chk, cname, pairs, facts, replay_for, key_for, sample=None):
         chk.nontrivial.add(cname)
         if sample is not None and len(chk.samples) < 4:
             chk.sample(sample)
-        return True
-    ok = True
-    for lab, e in eqs:
-        if not chk.prove(f"{cname}:{lab}", e, facts, key=key_for(lab), replay=replay_for(lab),
-                         what=f"{cname}: {lab} violates the relation"):
-            ok = False
+        return ok
+    old = chk.prover.timeout_ms
+    chk.prover.timeout_ms = min(old, 15000)
+    try:
+        for lab, e in eqs:
+            if not chk.prove(f"{cname}:{lab}", e, facts, key=key_for(lab), replay=replay_for(lab),
+                             what=f"{cname}: {lab} violates the relation"):
+                ok = False
+    finally:
+        chk.prover.timeout_ms = old
     return ok
 
 
